@@ -16,6 +16,7 @@ BASE = datetime(2020, 3, 1, 12, 0, 0, tzinfo=timezone.utc)
 
 STEPS: Dict[str, timedelta] = {
     "=": timedelta(0),
+    "ms": timedelta(milliseconds=250),
     "s": timedelta(seconds=1),
     "h": timedelta(hours=1),
     "d": timedelta(days=1),
@@ -94,7 +95,7 @@ def hist_str(history: Sequence[Tuple[Any, ...]]) -> str:
         s = sym_str(sym)
         if tz:
             s += f"[tz{tz:+d}m]"
-        parts.append(("" if not parts else {"=": " = ", "d": " +1d ", "y": " +1y ", "s": " +1s ", "h": " +1h "}.get(step, f" +{step} ")) + s)
+        parts.append(("" if not parts else {"=": " = ", "d": " +1d ", "y": " +1y ", "s": " +1s ", "h": " +1h ", "ms": " +250ms "}.get(step, f" +{step} ")) + s)
     return "".join(parts)
 
 
@@ -108,6 +109,7 @@ def materialize(
     row_order: str = "chrono",
     base: datetime = BASE,
     uid: bool = False,
+    price_scale: Any = 1,
 ) -> Optional[List[Dict[str, Any]]]:
     """Concrete specs for a history, or None when a symbol is not enabled (S(ALL) with nothing left).
 
@@ -115,6 +117,7 @@ def materialize(
     row_order: 'chrono' -> spreadsheet rows ascend with time; 'reverse' -> they descend (sheet order != time order).
     """
     scale = Fraction(scale)
+    price_scale = Fraction(price_scale)
     t = base
     specs: List[Dict[str, Any]] = []
     balance = Fraction(0)
@@ -137,7 +140,7 @@ def materialize(
                 "exchange": ex,
                 "holder": ho,
                 "transaction_type": typ,
-                "spot_price": dec(Fraction(price)),
+                "spot_price": dec(Fraction(price) * price_scale),
                 "crypto_in": dec(a),
                 "row": row,
             }
@@ -163,7 +166,7 @@ def materialize(
                     "exchange": ex,
                     "holder": ho,
                     "transaction_type": typ,
-                    "spot_price": dec(Fraction(price)),
+                    "spot_price": dec(Fraction(price) * price_scale),
                     "crypto_out_no_fee": "0",
                     "crypto_fee": dec(a + f),
                     "row": row,
@@ -175,7 +178,7 @@ def materialize(
                     "exchange": ex,
                     "holder": ho,
                     "transaction_type": typ,
-                    "spot_price": dec(Fraction(price)),
+                    "spot_price": dec(Fraction(price) * price_scale),
                     "crypto_out_no_fee": dec(a),
                     "crypto_fee": dec(f),
                     "row": row,
@@ -194,7 +197,7 @@ def materialize(
                 "from_holder": fh,
                 "to_exchange": tx,
                 "to_holder": th,
-                "spot_price": dec(Fraction(price)),
+                "spot_price": dec(Fraction(price) * price_scale),
                 "crypto_sent": dec(s),
                 "crypto_received": dec(s - f),
                 "row": row,
